@@ -12,7 +12,9 @@ import (
 	"fmt"
 	"math/rand"
 	"net"
+	"os"
 	"sort"
+	"strings"
 	"sync"
 	"time"
 
@@ -40,6 +42,8 @@ type Case struct {
 	// the distinct signature and of a violation's signature, so keep it stable and specific.
 	Class string `json:"class"`
 	Note  string `json:"note,omitempty"`
+	// Env: environment variables that the configuration refers to through {env.NAME} placeholders
+	Env map[string]string `json:"env,omitempty"`
 }
 
 // Target generates cases for one matcher.
@@ -169,6 +173,13 @@ func run(c *fw.Ctx) {
 			if cs.Matcher == "" {
 				cs.Matcher = t.Name
 			}
+			if i%4 == 3 {
+				// the same case with its string options given as environment placeholders: same verdict expected
+				if cfg2, env := placeholderise(cs.Matcher, cs.Config); env != nil {
+					cs.Config, cs.Env = cfg2, env
+					cs.Note = strings.TrimSpace(cs.Note + " [string options given as {env.NAME} placeholders]")
+				}
+			}
 			judge(c, cache, &cs)
 		}
 		if len(cache) > 4000 {
@@ -286,5 +297,8 @@ func replay(c *fw.Ctx, raw json.RawMessage) {
 	}
 	hmods.Quiet(c.OutDir + "/caddyhome")
 	cs.Input, _ = hex.DecodeString(cs.InputHex)
+	for k, v := range cs.Env {
+		_ = os.Setenv(k, v)
+	}
 	judge(c, map[string]*loaded{}, &cs)
 }
